@@ -261,6 +261,23 @@ func exploreScenario(rep *ev.Report, sc Scenario, bound int, rootOnly bool) {
 	}
 }
 
+func inSub(sc Scenario, sub []int) bool {
+	for _, th := range sc {
+		for _, o := range th {
+			found := false
+			for _, x := range sub {
+				found = found || x == o
+			}
+
+			if !found {
+				return false
+			}
+		}
+	}
+
+	return true
+}
+
 func shard() (int, int) {
 	i, n := 0, 1
 	fmt.Sscanf(os.Getenv("VERIF_SHARD"), "%d/%d", &i, &n)
@@ -284,15 +301,25 @@ func C16sched(rep *ev.Report) {
 	long := make([]bool, len(conc.Ops))
 	nLong := 0
 
+	pointsG2 := make([]int, len(conc.Ops))
+
 	for i, op := range conc.Ops {
-		long[i] = countPoints(op) > longThreshold
+		pointsG2[i] = countPoints(op)
+		long[i] = pointsG2[i] > longThreshold
+
 		if long[i] {
 			nLong++
 		}
 	}
 
+	if os.Getenv("VERIF_C16_POINTS") != "" {
+		for i, op := range conc.Ops {
+			fmt.Fprintf(os.Stderr, "%-36s G2 points=%d\n", op.Name, pointsG2[i])
+		}
+	}
+
 	boundShort, boundLong := 2, 1
-	rep.Rule("cooperative scheduler over the instrumented build, scheduling point = function entry (G2: all three packages, for operations with <= 400 entries; G1: root package only, when a long operation - Multiply, hashing to the group, decoding - takes part); scenarios = all ordered pairs of the concurrency alphabet (2 threads x 1 operation) on shared arguments incl. overlapping DST slices with spare capacity, plus 3 threads x 1 and 2 threads x 2 operations on a sub-alphabet; for every scenario ALL schedules with <= 2 preemptions (G2) / <= 1 preemption (G1) are executed; oracle per schedule: every thread's result equals the result of the same calls run alone, shared arguments bit-identical, package-level variables unchanged; every violating schedule and a sample of the others are replayed and must reproduce; prefix replay divergence is a tool error; non-trivial = scenarios with more than one schedule")
+	rep.Rule("cooperative scheduler over the instrumented build, scheduling point = function entry (G2: all three packages, for operations with <= 400 entries; G1: root package only, when a long operation - Multiply, hashing to the group, decoding - takes part); scenarios = all ordered pairs of the concurrency alphabet (2 threads x 1 operation) on shared arguments incl. overlapping DST slices with spare capacity, plus 3 threads x 1 and 2 threads x 2 operations on a sub-alphabet; for every scenario ALL schedules within the preemption bound are executed: short operations G2 with <= 2 preemptions (thorough: <= 3 on the sub-alphabet), medium operations (up to 4000 entries) G1 with <= 2 preemptions (thorough: additionally G2 with <= 1), huge operations and 3-thread / 2-operation scenarios <= 1 preemption; oracle per schedule: every thread's result equals the result of the same calls run alone, shared arguments bit-identical, package-level variables unchanged; every violating schedule and a sample of the others are replayed and must reproduce; prefix replay divergence is a tool error; non-trivial = scenarios with more than one schedule")
 	rep.Bound("preemption_bound_G2", boundShort)
 	rep.Bound("preemption_bound_G1", boundLong)
 	rep.Bound("alphabet", len(conc.Ops))
@@ -338,27 +365,42 @@ func C16sched(rep *ev.Report) {
 			continue
 		}
 
-		anyLong := false
+		anyLong, anyHuge := false, false
 		threads := len(sc)
 		ops := 0
 
 		for _, th := range sc {
 			for _, o := range th {
 				anyLong = anyLong || long[o]
+				anyHuge = anyHuge || pointsG2[o] > 4000
 				ops++
 			}
 		}
 
-		bound := boundShort
-		if anyLong || threads > 2 || ops > 2 {
-			bound = boundLong
-		}
+		simple := threads == 2 && ops == 2
 
-		if !ev.Thorough() && !anyLong && threads == 2 && ops == 2 {
-			bound = boundShort
-		}
+		switch {
+		case !anyLong && simple:
+			// short operations: every function entry is a scheduling point, 2 preemptions
+			exploreScenario(rep, sc, boundShort, false)
 
-		exploreScenario(rep, sc, bound, anyLong)
+			if ev.Thorough() && inSub(sc, sub) {
+				exploreScenario(rep, sc, 3, false)
+			}
+		case !anyLong:
+			exploreScenario(rep, sc, boundLong, false)
+		case anyHuge || !simple:
+			// Multiply, hashing to the group, compressed decoding: root-package entries only, 1 preemption
+			exploreScenario(rep, sc, boundLong, true)
+		default:
+			// medium operations (one inversion or so): root-package entries with 2 preemptions, and in the thorough
+			// tier every function entry with 1 preemption
+			exploreScenario(rep, sc, 2, true)
+
+			if ev.Thorough() {
+				exploreScenario(rep, sc, 1, false)
+			}
+		}
 
 		if rep.Expired() {
 			break
